@@ -46,6 +46,9 @@ CHECKS = {
  "C12": dict(technique="TLC judge of HasDiscoveries::matches on the whole bounded domain + observation validation of runs over finish/target/depth/seed configurations (CheckerObs) + JobMarket.tla BoundedDelay (design) + timed timeout runs and market-log validation judged by TLC",
              text="matches() agrees with HasDiscoveries.tla on every property list <=3 x discovery subset x variant; real runs of all strategies x finish conditions x targets x depth limits x threads stop early only with a reason, reach the target unless exhausted, never evaluate beyond the depth limit (1-thread BFS evaluates everything nearer), replay the first simulation trace for a seed; timeouts stop every thread count within expiry + poll + slack on an unbounded model, and an unexpired timeout leaves counts and progress unchanged with the timeout thread never sleeping under the market lock.",
              note="wall-clock bounds include slack; OS timing is sampled", ref="4/C12"),
+ "C16": dict(technique="TLC model checking of OrderedReliableLink.tla (all drop/duplicate/reorder/retransmission interleavings) + TLC judge of the property predicates on every reachable state of the real link-wrapped ActorModel + transition conformance with the protocol spec",
+             text="The link protocol is model-checked for scripted systems (prefix / acknowledged-implies-handed / completion invariants; the as-found variant is kept as a failing mutant); the real ActorModel<ActorWrapper<..>> is enumerated through the Model API within the same boundary and TLC evaluates the same predicates on every real reachable state and compares every real transition with the spec; state counts of spec and code agree.",
+             note="2-3 actors, <=4 messages, network boundary <=5 envelopes; wrapped actors are scripted senders / recorders", ref="4/C16"),
  "C11": dict(technique="TLA+ observation validation against Graph!EvCex (maximal-path semantics), exactness on generated forests",
              text="Reported eventually-counterexamples are judged by TLC against the existence of a maximal in-boundary path avoiding the condition (terminal or cycle in the non-sat region); on forest-shaped graphs the converse is judged too.",
              note="trusts TLC; forests are recognised by Graph!IsForest", ref="4/C11"),
